@@ -1159,6 +1159,8 @@ def embedding_leak(func_short=None, cls_short=None, rk=None, flag=None):
 def eq_laws(cls_short=None):
     from . import Q, Table, pk
     objs = [Table("a"), Table("a"), Table("a", alias="x"), Table("a", schema="s"), Table("a", schema="s"),
+            Table("a", schema=["d", "s"]), Table("a", schema=Q.Schema("s", parent=Q.Schema("d"))),
+            Q.Schema("s"), Q.Schema("s", parent=Q.Schema("d")), Q.Schema("s", parent=Q.Schema("e")),
             Table("a").for_(Table("a").v == 1), Q.AliasedQuery("q"), Q.AliasedQuery("q"),
             pk.Query.from_(Table("a")).select("x"), pk.Query.from_(Table("a")).select("x").as_("al")]
     for x in objs:
@@ -1296,3 +1298,24 @@ def returning_foreign():
         ("delete target", lambda: PostgreSQLQuery.from_(abc).delete().returning(abc.id), None),
     ]
     return _expect(cases)
+
+
+def should_parameterize():
+    """C04: enum members (also str-mixin ones) and the lone '*' stay inline; everything else is parameterised"""
+    import enum
+    from . import Parameterizer
+
+    class Plain(enum.Enum):
+        a = "x"
+
+    class StrE(str, enum.Enum):
+        a = "x"
+
+    class IntE(enum.IntEnum):
+        a = 1
+    p = Parameterizer()
+    for v, want in ((Plain.a, False), (StrE.a, False), (IntE.a, False), ("*", False), ("x", True), (1, True), (None, True)):
+        got = p.should_parameterize(v)
+        if bool(got) != want:
+            return f"should_parameterize({v!r}) == {got!r}, expected {want}"
+    return None
